@@ -140,3 +140,12 @@ reg('C08', 'fault_enumeration',
     'constructed messages that a negative-length-tolerant decoder would tile exactly. strict accepts => must accept with that '
     'dict; lenient rejects => must reject; in between, accepted readings must equal the lenient element values.',
     'Trusts vmon/ref/codec.py strict/lenient decoders. A non-library exception counts as a rejection here (reported by C07).')
+
+reg('C10', 'fault_enumeration',
+    'runtime monitor: real IpmReader and the extraction tool run on files whose k-th record carries an injected fault; records delivered, exception attributes and the operator line observed for every k',
+    'n = 1..10 (quick) / 1..12, 17, 25, 40 (thorough) records x every position k x nine fault kinds (truncated record, oversized '
+    'length, undecodable MTI, unknown bitmap bit, bad field length, bad typed value, bad PDS content, bad ICC content, trailing '
+    'bytes) x {VBS, 1014} x {latin_1, cp500}: exactly k-1 records equal to the strict reference decode, MciIpmDataError with '
+    'record_number == k and binary_context_data == prefix + raw bytes of record k, and "Error detected in record k" printed by '
+    'mci_ipm_to_csv run in-process on the same file.',
+    'Trusts vmon/ref/codec.py and vmon/ref/blocking.py to build files and expected dicts.')
